@@ -87,6 +87,9 @@ pub fn c04_list(
             continue;
         };
         let class = path_class(model);
+        if model.segments.len() >= 2 || class != "plain" {
+            f.count("c04:nontrivial", 1);
+        }
         let dctx = || json!({"ctx": ctx, "n": n, "class": class, "meta_ifs": o.meta_ifs, "path": super::world::model_json(model)});
         // --- metadata truth: src/dst
         if w.id(o.src) != src || w.id(o.dst) != dst {
